@@ -22,6 +22,20 @@ def body(ch):
     part, cul, q, ref = sc.build(ch)
     if part == 'normaliser':
         ch.prune()
+    if part == 'two-threads':
+        (rec, mt), qs, plan, got, alone = sc.two_threads(ch)
+        for tid, q in enumerate(qs):
+            ents = got[tid]
+            if isinstance(ents, str):
+                ch.fail('two-threads|%s|exception' % mt, {'model': mt, 'queries': qs, 'plan': plan, 'error': ents})
+                return
+            if sc.overlap_error(ents):
+                ch.fail('two-threads|%s|overlap' % mt, {'model': mt, 'queries': qs, 'plan': plan, 'thread': tid,
+                                                       'entities': [(e.start, e.end, e.text) for e in ents]})
+                return
+        ch.ok(case=(mt, tuple(map(tuple, plan))), nontrivial=any(len(g) >= 2 for g in got if not isinstance(g, str)),
+              outcome='two-threads|%s' % mt, evals=2)
+        return
     for rec, mt, ents in sc.calls(cul, q, ref):
         err = sc.overlap_error(ents)
         if err:
